@@ -404,6 +404,55 @@ def g_posix_patterns(rnd):
     return files
 
 
+def g_identity_rings(rnd):
+    """derivation rings of 3..5 identities, inside one module and through modules that import each other, next to
+    acyclic identities: every member of a ring is reported, whichever the identity dictionary yields first"""
+    files = []
+    if rnd.random() < 0.6:
+        ln = rnd.randint(3, 5)
+        names = ["r%d" % j for j in range(ln)]
+        lines = ["  identity %s { base %s; }\n" % (names[j], names[(j + 1) % ln]) for j in range(ln)]
+        rnd.shuffle(lines)
+        body = "".join(lines) + "  identity top;\n  identity under { base top; }\n"
+        if rnd.random() < 0.5:
+            body += "  identity hanger { base %s; }\n" % rnd.choice(names)
+        if rnd.random() < 0.5:
+            body += "  leaf ref { type identityref { base %s; } }\n" % rnd.choice(names + ["top"])
+        files.append(mod("ring", body))
+    if not files or rnd.random() < 0.6:
+        ln = rnd.randint(3, 5)
+        mods = ["rm%d" % j for j in range(ln)]
+        for j, me in enumerate(mods):
+            nxt = mods[(j + 1) % ln]
+            body = "  identity x%d { base %s:x%d; }\n" % (j, nxt, (j + 1) % ln)
+            if rnd.random() < 0.3:
+                body += "  identity extra%d { base x%d; }\n" % (j, j)
+            if rnd.random() < 0.3:
+                body += "  leaf bad%d { type nope; }\n" % j
+            files.append(mod(me, body, imports=[(nxt, nxt)]))
+    return files
+
+
+def g_superseded(rnd):
+    """a module whose typedef and identities are used through `type union { type p:t; }` and `type identityref
+    { base p:b; }`, present in an older form (older revision, or no revision) and a newer revision that redefines
+    them: the result is that of the newest, also when a Process ran before the newer source arrived"""
+    old_rev = rnd.choice([None, "2019-01-01"])
+    old = mod("p", "  typedef t { type int8 { range 1..10; } default 5; }\n  identity b;\n  identity d0 { base b; }\n", rev=old_rev)
+    new = mod("p", "  typedef t { type string { pattern 'x.*'; length 1..8; } }\n  identity b;\n  identity d1 { base b; }\n"
+                   "  identity d2 { base d1; }\n", rev="2022-02-02")
+    body = ""
+    for ln in rnd.sample(["  leaf u { type union { type p:t; type boolean; } }\n",
+                          "  typedef tu { type union { type p:t; } }\n  leaf u2 { type tu; }\n",
+                          "  leaf-list ul { type union { type boolean; type p:t; } }\n",
+                          "  leaf r { type identityref { base p:b; } }\n",
+                          "  typedef tr { type identityref { base p:b; } }\n  leaf r2 { type tr; }\n",
+                          "  leaf direct { type p:t; }\n",
+                          "  identity mine { base p:b; }\n"], rnd.randint(2, 6)):
+        body += ln
+    return [old, mod("a", body, imports=[("p", "p")]), new]
+
+
 def g_random(rnd):
     return files_of_schema(sg.random_schema(rnd, n_modules=rnd.randint(2, 4)))
 
@@ -441,16 +490,23 @@ GENS = [("random", g_random, 8), ("random-faulty", g_random_faulty, 3), ("identi
         ("dup-names", g_dup_names, 1), ("errors-multi", g_errors_multi, 2), ("missing-imports", g_missing_imports, 2),
         ("two-revisions", g_two_revisions, 1), ("typedefs", g_typedefs, 1),
         ("ident-shared-prefix", g_ident_shared_prefix, 2), ("typedef-cycles", g_typedef_cycles, 2), ("rev-norev", g_rev_norev, 2),
-        ("posix-patterns", g_posix_patterns, 2)]
+        ("posix-patterns", g_posix_patterns, 2), ("identity-rings", g_identity_rings, 2), ("superseded", g_superseded, 2)]
 # families whose defects only show as a difference between runs with the SAME input: more repeats
-REPEATS = {"ident-shared-prefix": 6, "typedef-cycles": 6, "rev-norev": 5, "identities": 5, "posix-patterns": 6, "typedefs": 5}
+REPEATS = {"ident-shared-prefix": 6, "typedef-cycles": 6, "rev-norev": 5, "identities": 5, "posix-patterns": 6, "typedefs": 5,
+           "identity-rings": 6}
+# how many orders of a case are also run with a Process in between (default 1)
+INCREMENTAL = {"superseded": 6, "rev-norev": 3, "two-revisions": 3}
 # always present, whatever the seed draws
 CORPUS = [("ident-shared-prefix", g_ident_shared_prefix, 6), ("typedef-cycles", g_typedef_cycles, 6), ("rev-norev", g_rev_norev, 4),
-          ("posix-patterns", g_posix_patterns, 6)]
+          ("posix-patterns", g_posix_patterns, 6), ("identity-rings", g_identity_rings, 6), ("superseded", g_superseded, 4)]
 
 
-def go_line(files, opts="-"):
-    toks = ["process", opts, ",".join(["L%d" % i for i in range(len(files))] + ["P"]), str(len(files))]
+def go_line(files, opts="-", order=None):
+    """`process` case: the texts in the order of [files]; [order] = indices in load order, "P" = a Process call in
+    between (a final Process is always appended)"""
+    order = list(range(len(files))) if order is None else order
+    ops = ["P" if i == "P" else "L%d" % i for i in order] + ["P"]
+    toks = ["process", opts, ",".join(ops), str(len(files))]
     for n, t in files:
         toks += [hx(n), hx(t)]
     return " ".join(toks)
@@ -480,15 +536,16 @@ def first_diff(a, b, path=""):
     return path, a, b
 
 
-def canon_out(line, files):
-    """canonical form of one `process` observation: load results by file name, the dump(s) as they are"""
+def canon_out(line, files, order=None):
+    """canonical form of one `process` observation: load results by file name, the dump after the LAST Process"""
     if not line.startswith("{"):
         return dict(raw=line.split(" @")[0] if line.startswith("PANIC") else line)
     j = json.loads(line)
+    order = list(range(len(files))) if order is None else order
     loads = {}
-    for (n, _), st in zip(files, j["loads"]):
-        loads.setdefault(n, []).append(st)
-    return dict(loads={k: sorted(v) for k, v in loads.items()}, runs=j["runs"])
+    for i, st in zip([i for i in order if i != "P"], j["loads"]):
+        loads.setdefault(files[i][0], []).append(st)
+    return dict(loads={k: sorted(v) for k, v in loads.items()}, runs=j["runs"][-1:])
 
 
 POS = re.compile(r"^(.*?):(-?\d+):(-?\d+)$")
@@ -539,9 +596,18 @@ def metamorphic(res, cases, rnd, k, max_perms):
         for rep in range(max(k, REPEATS.get(gen, 0))):
             lines.append(go_line(files, opts))
             index.append((ci, list(range(n))))
-        for p in orders_for(n, rnd, max_perms):
-            lines.append(go_line([files[i] for i in p], opts))
+        perms = orders_for(n, rnd, max_perms)
+        for p in perms:
+            lines.append(go_line(files, opts, p))
             index.append((ci, p))
+        # the same sources with a Process in between ("load order + intermediate Process"): the final outcome must be
+        # that of loading everything at once
+        if n > 1:
+            for p in ([list(range(n))] + perms)[:INCREMENTAL.get(gen, 1)]:
+                cut = rnd.randint(1, n - 1)
+                q = p[:cut] + ["P"] + p[cut:]
+                lines.append(go_line(files, opts, q))
+                index.append((ci, q))
     tmp = tempfile.mkdtemp(prefix="c05-")
     try:
         outs = lib.run_go(lines, cwd=tmp)
@@ -562,7 +628,7 @@ def metamorphic(res, cases, rnd, k, max_perms):
         for order, o in runs:
             if o.startswith("CRASH") or o == "NOT-RUN":
                 stats["crashes"] += 1
-            canon.append(canon_out(o, [files[i] for i in order]))
+            canon.append(canon_out(o, files, order))
         c0 = canon[0]
         st = "raw:" + c0["raw"][:20] if "raw" in c0 else ("err" if c0["runs"] and c0["runs"][-1]["errors"] else
                                                          ("loaderr" if any(s != ["ok"] for s in c0["loads"].values()) else "ok"))
@@ -705,7 +771,7 @@ def run(res, tier, seed, proof):
     cases = gen_cases(rnd, 300 if quick else 16000)
     k, max_perms = (3, 8) if quick else (5, 23)
     mm = metamorphic(res, cases, rnd, k, max_perms)
-    cli_cases = cases[:56] if quick else cases[:1500]
+    cli_cases = cases[:66] if quick else cases[:1500]
     cli = cli_part(res, cli_cases, rnd, 3 if quick else 4, 4 if quick else 8)
     cov = dict(
         evaluations=es_evals + mm["runs"] + cli["invocations"],
@@ -718,7 +784,9 @@ def run(res, tier, seed, proof):
              "node, duplicate names, errors in several files and on one line with lines 9/10/100, missing imports, two revisions, "
              "typedef chains, same-named identities in modules sharing an own prefix, typedef cycles of length 2-4, one module "
              "name with and without revision plus importers, typedefs restricted by several typedefs/leaves that add "
-             "posix-patterns (openconfig extension) or patterns only; the last four also as a fixed corpus with >= 5 repeats): each processed k times in one order and in all (<= 4 files, capped) or sampled load orders; all "
+             "posix-patterns (openconfig extension) or patterns only, identity derivation rings of 3-5 inside a module "
+             "and through mutually importing modules, a module superseded by a newer revision under union/identityref users; the "
+             "last six also as a fixed corpus); every case additionally with a Process between two loads (final outcome = batch): each processed k times in one order and in all (<= 4 files, capped) or sampled load orders; all "
              "dumps byte-identical (ids included; id-only differences counted), error list ordered and duplicate-free.  (3) the "
              "goyang command with --format tree/types on a prefix of the same sets, repeated and with permuted arguments.  "
              "non-trivial = more than one file / distinct set of error texts",
@@ -775,14 +843,14 @@ def replay(rep, res):
         tmp = tempfile.mkdtemp(prefix="c05-")
         try:
             orders = [rep.get("order_a") or rep.get("order"), rep.get("order_b") or rep.get("order")] * 10
-            lines = [go_line([files[i] for i in o], rep.get("opts", "-")) for o in orders]
+            lines = [go_line(files, rep.get("opts", "-"), o) for o in orders]
             outs = lib.run_go(lines, cwd=tmp, shards=1)
         finally:
             shutil.rmtree(tmp, ignore_errors=True)
         seen = {}
         bad = False
         for o, ln in zip(orders, outs):
-            c = canon_out(ln, [files[i] for i in o])
+            c = canon_out(ln, files, o)
             seen.setdefault(json.dumps(strip_ids(c), sort_keys=True), o)
             for r in c.get("runs", []):
                 if errlist_problems(r):
